@@ -145,6 +145,7 @@ type Flags struct {
 	Eff   bool `json:"eff"`   // effective volumes maintained (MOVES_HISTORY = ON and ..._EFFECTIVE_VOLUMES = SYNC)
 	EffSync bool `json:"effsync"` // MOVES_HISTORY_POST_COMMIT_EFFECTIVE_VOLUMES = SYNC, whatever MOVES_HISTORY
 	Hash  bool `json:"hash"`  // HASH_LOGS = SYNC
+	Async bool `json:"async"` // HASH_LOGS = ASYNC: the block builder covers this ledger
 	AMH   bool `json:"amh"`   // ACCOUNT_METADATA_HISTORY = SYNC
 	TMH   bool `json:"tmh"`   // TRANSACTION_METADATA_HISTORY = SYNC
 }
@@ -188,6 +189,10 @@ type Line struct {
 	Group bool       `json:"group"`
 	Cores []Core     `json:"cores"`
 	FRead []FeatRead `json:"fread"`
+	// Blk (C34): ledger -> rows of logs_blocks with the re-derived digest, for the ledgers with HASH_LOGS=ASYNC;
+	// Quiet: the block builder ran to completion after every request of the line had returned
+	Blk   BlkMap `json:"blk"`
+	Quiet bool   `json:"quiet"`
 	Prop  string `json:"prop"` // property the concurrent scenario family targets (C06, C13, ...)
 	Fam   string `json:"fam"`
 }
@@ -207,6 +212,8 @@ func PropOfFamily(f string) string {
 		return "C16"
 	case len(f) >= 7 && f[:7] == "import/":
 		return "C12"
+	case len(f) >= 7 && f[:7] == "blocks/":
+		return "C34"
 	}
 	return ""
 }
